@@ -99,11 +99,11 @@ theorem roots_spec (cands : List Cand) (σ σ' : Var → Nat) : ∀ (rs : List (
     out.map (rootVals σ') = rs.map (rootVals σ)
   | [], k, out => by
     intro h _ _
-    simp only [replaceRoots] at h
+    simp only [replaceRoots, replaceRootsM] at h
     have := pure_ok.mp h; subst this; rfl
   | none :: rs, k, out => by
     intro h hwf hg
-    simp only [replaceRoots] at h
+    simp only [replaceRoots, replaceRootsM] at h
     obtain ⟨o, ho, hp⟩ := bind_ok.mp h
     have := pure_ok.mp hp; subst this
     simp only [traceRoots] at hg
@@ -111,7 +111,7 @@ theorem roots_spec (cands : List Cand) (σ σ' : Var → Nat) : ∀ (rs : List (
     simp [rootVals, ih]
   | some r :: rs, k, out => by
     intro h hwf hg
-    simp only [replaceRoots] at h
+    simp only [replaceRoots, replaceRootsM] at h
     obtain ⟨a, ha, h2⟩ := bind_ok.mp h
     obtain ⟨o, ho, hp⟩ := bind_ok.mp h2
     have := pure_ok.mp hp; subst this
@@ -128,18 +128,18 @@ theorem roots_decls (cands : List Cand) : ∀ (rs : List (Option VExpr)) (k : Na
     rootDecls out = (traceRoots cands k rs).flatMap outDecls ∧ rootDecls rs = (traceRoots cands k rs).flatMap inDecls
   | [], k, out => by
     intro h _
-    simp only [replaceRoots] at h
+    simp only [replaceRoots, replaceRootsM] at h
     have := pure_ok.mp h; subst this; simp [rootDecls, traceRoots]
   | none :: rs, k, out => by
     intro h hg
-    simp only [replaceRoots] at h
+    simp only [replaceRoots, replaceRootsM] at h
     obtain ⟨o, ho, hp⟩ := bind_ok.mp h
     have := pure_ok.mp hp; subst this
     simp only [traceRoots] at hg ⊢
     simpa [rootDecls] using roots_decls cands rs (k + 1) o ho hg
   | some r :: rs, k, out => by
     intro h hg
-    simp only [replaceRoots] at h
+    simp only [replaceRoots, replaceRootsM] at h
     obtain ⟨a, ha, h2⟩ := bind_ok.mp h
     obtain ⟨o, ho, hp⟩ := bind_ok.mp h2
     have := pure_ok.mp hp; subst this
